@@ -320,6 +320,40 @@ harnesses! {
         cover!(ra.is_ok() && !ramp && x != 1.0, "accepted without ramp");
         forget(a); forget(b); forget(c); forget(d);
     }
+    // the same after the current ratio has moved away from the original (absolute change first):
+    // a relative change is still relative to the ORIGINAL ratio; FixedIn polynomial and FixedOut sinc types
+    #[kani::unwind(6)]
+    fn c12_rel_as_abs_getters_moved(nd) {
+        let (orig, max) = (0.75f64, 2.0f64);
+        let mut a = FastFixedIn::<f64>::new(orig, max, PolynomialDegree::Nearest, 3, 1).unwrap();
+        let mut b = FastFixedIn::<f64>::new(orig, max, PolynomialDegree::Nearest, 3, 1).unwrap();
+        let mut c = SincFixedOut::<f64>::new_with_interpolator(orig, max, SincInterpolationType::Nearest,
+                probe::boxed64(2, 1), 3, 1).unwrap();
+        let mut d = SincFixedOut::<f64>::new_with_interpolator(orig, max, SincInterpolationType::Nearest,
+                probe::boxed64(2, 1), 3, 1).unwrap();
+        check!(a.set_resample_ratio(1.25, false).is_ok() && b.set_resample_ratio(1.25, false).is_ok()
+            && c.set_resample_ratio(1.25, false).is_ok() && d.set_resample_ratio(1.25, false).is_ok(), "C12.abs_iff[base]");
+        let x = nd.f64();
+        let ramp = nd.bool();
+        let ra = a.set_resample_ratio_relative(x, ramp);
+        let rb = b.set_resample_ratio(orig * x, ramp);
+        let rc = c.set_resample_ratio_relative(x, ramp);
+        let rd = d.set_resample_ratio(orig * x, ramp);
+        if ra.is_ok() && rb.is_ok() {
+            check!(a.output_frames_next() == b.output_frames_next()
+                && a.output_delay() == b.output_delay(), "C12.rel_as_abs_getters[base]");
+        }
+        if rc.is_ok() && rd.is_ok() {
+            check!(c.input_frames_next() == d.input_frames_next()
+                && c.output_delay() == d.output_delay(), "C12.rel_as_abs_getters[base]");
+        }
+        if x > 0.5000001 && x < 1.9999999 {
+            check!(ra.is_ok() && rb.is_ok() && rc.is_ok() && rd.is_ok(), "C12.rel_as_abs_result[base]");
+        }
+        cover!(ra.is_ok() && ramp, "accepted with ramp");
+        cover!(ra.is_ok() && !ramp && x != 1.0, "accepted without ramp");
+        forget(a); forget(b); forget(c); forget(d);
+    }
     #[kani::unwind(30)]
     fn c12_rel_as_abs_ffi(nd) {
         rel_equals_abs!(nd,
@@ -338,6 +372,38 @@ harnesses! {
             SincFixedOut::<f64>::new_with_interpolator(0.75, 2.0, SincInterpolationType::Nearest,
                 probe::boxed64(2, 1), 2, 1).unwrap(),
             0.75f64, 2.0f64, 12, 2);
+    }
+
+    // relative changes are relative to the ORIGINAL ratio also when the current ratio has moved away from it
+    #[kani::unwind(30)]
+    fn c12_rel_as_abs_ffi_moved(nd) {
+        rel_equals_abs!(nd,
+            { let mut r = FastFixedIn::<f64>::new(1.5, 3.0, PolynomialDegree::Nearest, 2, 1).unwrap();
+              check!(r.set_resample_ratio(3.0, false).is_ok(), "C12.abs_iff[base]"); r },
+            1.5f64, 3.0f64, 2, 19);
+    }
+    #[kani::unwind(16)]
+    fn c12_rel_as_abs_ffo_moved(nd) {
+        rel_equals_abs!(nd,
+            { let mut r = FastFixedOut::<f64>::new(0.75, 2.0, PolynomialDegree::Nearest, 2, 1).unwrap();
+              check!(r.set_resample_ratio(1.25, false).is_ok(), "C12.abs_iff[base]"); r },
+            0.75f64, 2.0f64, 14, 2);
+    }
+    #[kani::unwind(16)]
+    fn c12_rel_as_abs_sfo_moved(nd) {
+        rel_equals_abs!(nd,
+            { let mut r = SincFixedOut::<f64>::new_with_interpolator(0.75, 2.0, SincInterpolationType::Nearest,
+                probe::boxed64(2, 1), 2, 1).unwrap();
+              check!(r.set_resample_ratio(1.25, false).is_ok(), "C12.abs_iff[base]"); r },
+            0.75f64, 2.0f64, 12, 2);
+    }
+    #[kani::unwind(30)]
+    fn c12_rel_as_abs_sfi_moved(nd) {
+        rel_equals_abs!(nd,
+            { let mut r = SincFixedIn::<f64>::new_with_interpolator(1.5, 3.0, SincInterpolationType::Nearest,
+                probe::boxed64(2, 1), 2, 1).unwrap();
+              check!(r.set_resample_ratio(3.0, false).is_ok(), "C12.abs_iff[base]"); r },
+            1.5f64, 3.0f64, 2, 19);
     }
 
 
